@@ -2,6 +2,7 @@ package cdcval
 
 import (
 	"fmt"
+	"strings"
 	"sync"
 
 	"github.com/onflow/cadence/interpreter"
@@ -18,7 +19,9 @@ import (
 // deploy it. (Not part of it: the contract interface C.CI and the struct S.test.Emp, which
 // live at other locations, and the event C.EvA, whose AnyStruct parameter the
 // checker does not allow for events – it exists for the codecs only.)
-const PreludeContract = `
+var PreludeContract = preludeHead + mixDeclarations() + preludeTail
+
+const preludeHead = `
 access(all) contract C {
 
     access(all) entitlement E
@@ -109,6 +112,33 @@ access(all) contract C {
         }
     }
 
+    access(all) attachment A0 for S {}
+
+    access(all) attachment A2 for S {
+        access(all) let y: String
+        init() {
+            self.y = "z"
+        }
+    }
+
+    access(all) attachment AR for R {
+        access(all) let x: Int
+        init() {
+            self.x = 8
+        }
+    }
+
+    access(all) attachment AR0 for R {}
+
+    access(all) struct Leaf {
+        access(all) let v: Int
+        init(v: Int) {
+            self.v = v
+        }
+    }
+`
+
+const preludeTail = `
     access(all) let n: Int
 
     access(all) fun mkR(): @R {
@@ -120,6 +150,36 @@ access(all) contract C {
     }
 }
 `
+
+// mixDeclarations declares the Mix structs (see Prelude.Mix) in every field order.
+func mixDeclarations() string {
+	var sb strings.Builder
+	decl := map[byte][2]string{
+		'c': {"c", "Int"},
+		'o': {"o", "Leaf?"},
+	}
+	for _, fam := range []string{"M", "N"} {
+		abstract := "AnyStruct"
+		if fam == "N" {
+			abstract = "{I}"
+		}
+		for _, ord := range MixOrders {
+			fmt.Fprintf(&sb, "\n    access(all) struct %s%s {\n", fam, ord)
+			var params, inits []string
+			for i := 0; i < len(ord); i++ {
+				name, typ := "a", abstract
+				if d, ok := decl[ord[i]]; ok {
+					name, typ = d[0], d[1]
+				}
+				fmt.Fprintf(&sb, "        access(all) let %s: %s\n", name, typ)
+				params = append(params, name+": "+typ)
+				inits = append(inits, "            self."+name+" = "+name)
+			}
+			fmt.Fprintf(&sb, "        init(%s) {\n%s\n        }\n    }\n", strings.Join(params, ", "), strings.Join(inits, "\n"))
+		}
+	}
+	return sb.String()
+}
 
 var (
 	preludeOnce    sync.Once
